@@ -190,6 +190,9 @@ def build_schema(texts, pattern=None):
         "e": {"type": "string", "enum": [ev1, ev2, "plain"]},
         "c": {"type": "string", "const": const},
         pname: {"type": "integer"},
+        # members whose type is not str although their default is written as text
+        "bin": {"type": "string", "format": "binary", "default": dflt},
+        "b64": {"type": "string", "format": "byte", "default": dflt},
     }
     if pattern is not None:
         props["p"] = {"type": "string", "pattern": pattern}
